@@ -73,19 +73,30 @@ Record rcfg := {
   rc_try_old : bool;       (* its handler retries with resume_file + ".old"                           *)
   rc_wcatch : list exn;    (* except (...) around reload_weights(weights_file) in FlowProposal.resume *)
   rc_wfallback : bool;     (* that handler loads weights_file + ".old"                                *)
-  rc_welif_old : bool      (* elif os.path.exists(weights_file + ".old"): load it                     *)
+  rc_welif_old : bool;     (* elif os.path.exists(weights_file + ".old"): load it                     *)
+  rc_wremove : bool        (* the handler removes the damaged weights_file once the fallback has loaded *)
 }.
+(* FlowProposal.resume today (after commit "removes a damaged weights file after falling back and
+   catches UnpicklingError"), with the full oracle for torn weights files *)
 Definition rc_today : rcfg :=
-  {| rc_wcls := wcls_long; rc_catch1 := [FNF; RTE]; rc_try_old := true;
-     rc_wcatch := [EOFE; OSE; FNF; RTE]; rc_wfallback := true; rc_welif_old := true |}.
-(* the same reader when the kill may also leave 1-3 bytes of model.pt *)
-Definition rc_today_short : rcfg :=
   {| rc_wcls := wcls_all; rc_catch1 := [FNF; RTE]; rc_try_old := true;
-     rc_wcatch := [EOFE; OSE; FNF; RTE]; rc_wfallback := true; rc_welif_old := true |}.
+     rc_wcatch := [EOFE; OSE; FNF; RTE; UNPE]; rc_wfallback := true; rc_welif_old := true;
+     rc_wremove := true |}.
+(* FlowProposal.resume between "falls back to the previous weights file" and the commit above:
+   fallback, but UnpicklingError is not caught and the damaged file stays *)
+Definition rc_fallback_only : rcfg :=
+  {| rc_wcls := wcls_long; rc_catch1 := [FNF; RTE]; rc_try_old := true;
+     rc_wcatch := [EOFE; OSE; FNF; RTE]; rc_wfallback := true; rc_welif_old := true;
+     rc_wremove := false |}.
+(* the same reader when the kill may also leave 1-3 bytes of model.pt *)
+Definition rc_fallback_only_short : rcfg :=
+  {| rc_wcls := wcls_all; rc_catch1 := [FNF; RTE]; rc_try_old := true;
+     rc_wcatch := [EOFE; OSE; FNF; RTE]; rc_wfallback := true; rc_welif_old := true;
+     rc_wremove := false |}.
 (* FlowProposal.resume before commit "falls back to the previous weights file" *)
 Definition rc_before_fix : rcfg :=
   {| rc_wcls := wcls_long; rc_catch1 := [FNF; RTE]; rc_try_old := true;
-     rc_wcatch := []; rc_wfallback := false; rc_welif_old := false |}.
+     rc_wcatch := []; rc_wfallback := false; rc_welif_old := false; rc_wremove := false |}.
 
 (* ---- the reader, as a function into the list of possible results --------------------------- *)
 Definition bind {X Y} (m : list X) (k : X -> list Y) : list Y := flat_map k m.
@@ -167,22 +178,42 @@ Definition try_load (rc : rcfg) (v : fview) (f : fname) : list (exn + (payload *
              (fun r' => match r' with inl e => [inl e] | inr ws => [inr (PkP ver w, ws)] end)
     end).
 
-(* FlowSampler.__init__(resume=True): check_resume, then _resume_from_file, else a new sampler *)
-Definition resume (rc : rcfg) (v : fview) : list outcome :=
+(* FlowSampler.__init__(resume=True): check_resume, then _resume_from_file, else a new sampler.
+   Every outcome comes with the file the sampler was unpickled from (Base Pkl when none was). *)
+Definition resume_src (rc : rcfg) (v : fview) : list (outcome * fname) :=
   if aexists v (Base Pkl) || aexists v (Old (Base Pkl)) then
     bind (try_load rc v (Base Pkl)) (fun r =>
       match r with
-      | inr (pk, ws) => [Loaded pk ws]
+      | inr (pk, ws) => [(Loaded pk ws, Base Pkl)]
       | inl e =>
           if emem e (rc_catch1 rc) && rc_try_old rc then
             bind (try_load rc v (Old (Base Pkl))) (fun r2 =>
               match r2 with
-              | inr (pk, ws) => [Loaded pk ws]
-              | inl _ => [Fail]      (* RuntimeError re-raised, anything else propagates *)
+              | inr (pk, ws) => [(Loaded pk ws, Old (Base Pkl))]
+              | inl _ => [(Fail, Base Pkl)]      (* RuntimeError re-raised, anything else propagates *)
               end)
-          else [Fail]
+          else [(Fail, Base Pkl)]
       end)
-  else [Fresh].
+  else [(Fresh, Base Pkl)].
+Definition resume (rc : rcfg) (v : fview) : list outcome := map fst (resume_src rc v).
+
+(* which file the RESUMED sampler will checkpoint to: sampler.resume_file *)
+Inductive rholder :=
+| KeepPickled     (* the pickled attribute is kept: <output>/<resume_file>, whichever file was loaded *)
+| FollowLoaded.   (* resume assigns the name of the file that was loaded (possibly the .old one)      *)
+Definition holder (rh : rholder) (src : fname) : fname :=
+  match rh with KeepPickled => Base Pkl | FollowLoaded => src end.
+
+(* the directory after the resume: the only thing the reader ever changes is removing a damaged
+   weights file whose fallback copy it has just loaded *)
+Definition after_resume (rc : rcfg) (v : fview) : fview :=
+  if rc_wremove rc && rc_wfallback rc then
+    fold_left (fun acc os =>
+                 match fst os with
+                 | Loaded (PkP _ (StdW f)) (_ :: _) => match v f with Bad => upd acc f Absent | _ => acc end
+                 | _ => acc
+                 end) (resume_src rc v) v
+  else v.
 
 (* ---- the writers as they are today (hand copies; the translator regenerates them) ---------- *)
 Definition safe_file_dump_ops (save_existing : bool) (F : fname) (NEW : payload) : list op :=
@@ -354,6 +385,38 @@ Definition c11_ok (rc : rcfg) (dump_keep dump_nokeep save_w save_w_ins : writer)
   && weights_writer_ok rc save_w WT std_weights_scens
   && ins_weights_writer_ok rc save_w_ins ins_weights_scens.
 
+
+(* ---- two kills: kill during a checkpoint, resume, kill during the resumed sampler's next checkpoint --- *)
+(* what must be found after the second kill, given what the first resume found *)
+Definition second_ok (o1 : outcome) (new2 : payload) (o2 : outcome) : bool :=
+  match o1, o2 with
+  | Loaded pk1 _, Loaded pk _ => payload_eqb pk pk1 || payload_eqb pk new2
+  | Fresh, Fresh => true
+  | Fresh, Loaded pk _ => payload_eqb pk new2
+  | _, _ => false
+  end.
+Definition next_payload (p : payload) : payload :=
+  match p with PkP v w => PkP (S v) w | WtP v => WtP (S v) end.
+
+Definition two_crash_ok (rc : rcfg) (rh : rholder) (mk : writer) (s : scen) (new2 : payload) : bool :=
+  forallb (fun v1 =>
+    forallb (fun os =>
+      let ops2 := mk (holder rh (snd os)) new2 in
+      legal (closed v1) ops2
+      && forallb (fun v2 => forallb (second_ok (fst os) new2) (resume rc v2))
+                 (crash_states (closed v1) ops2))
+      (resume_src rc v1))
+    (crash_states (s_init s) (mk PKL (s_new s))).
+
+Definition two_crash_checker (rc : rcfg) (rh : rholder) (mk : writer) (scens : list scen) : bool :=
+  forallb (fun s => two_crash_ok rc rh mk s (next_payload (s_new s))) scens.
+
+(* everything C11 asks about two-kill histories, as one boolean *)
+Definition c11_two_ok (rc : rcfg) (rh : rholder) (dump_keep dump_nokeep : writer) : bool :=
+  two_crash_checker rc rh dump_keep std_pickle_scens
+  && two_crash_checker rc rh dump_nokeep std_pickle_scens
+  && two_crash_checker rc rh dump_keep ins_pickle_scens
+  && two_crash_checker rc rh dump_nokeep ins_pickle_scens.
 
 (* ---- concrete states used by the refuted variants ---------------------------------------------- *)
 Definition view_at (a0 : fstate) (ops : list op) (i : nat) : fview :=
